@@ -219,19 +219,15 @@ class NaiveLinear(Linear):
         """
         Cost:
             inverse = O(D^3)
-            logabsdet = O(D)
+            logabsdet = O(D^3)
         where:
             D = num of features
         """
-        # If both weight inverse and logabsdet are needed, it's cheaper to compute both together.
-        identity = torch.eye(
-            self.features, dtype=self._weight.dtype, device=self._weight.device
-        )
-        # LU-decompose the weights and solve for the outputs.
-        lu, lu_pivots = torch.lu(self._weight)
-        weight_inv = torch.lu_solve(identity, lu, lu_pivots)
-        logabsdet = torch.sum(torch.log(torch.abs(torch.diag(lu))))
-        return weight_inv, logabsdet
+        # Computed exactly as weight_inverse() and logabsdet() compute them: the cache is filled
+        # by whichever of forward / inverse runs first, and a separate LU-based formula here
+        # made the cached inverse and logabsdet (hence the results of later calls) differ in the
+        # last bits depending on that order.
+        return self.weight_inverse(), self.logabsdet()
 
     def logabsdet(self):
         """Cost:
